@@ -15,7 +15,7 @@ from .execu import Exec, Frame, parse_annotation, loop_fingerprint, assigned_nam
 from .bufs import Buf, BufRef, BufView, BufCopy, FIELD
 from .flat import FlatView
 
-BUILTINS = {'array', 'nonzero', 'slice', 'transpose', 'split', 'full_like', 'solve', 'arange', 'atleast_1d', 'len', 'range', 'enumerate', 'min', 'max', 'abs', 'int', 'float', 'bool', 'empty', 'zeros', 'ones',
+BUILTINS = {'round', 'array', 'nonzero', 'slice', 'transpose', 'split', 'full_like', 'solve', 'arange', 'atleast_1d', 'len', 'range', 'enumerate', 'min', 'max', 'abs', 'int', 'float', 'bool', 'empty', 'zeros', 'ones',
             'empty_like', 'zeros_like', 'sum', 'tuple', 'list', 'isinstance', 'print', 'zip', 'floor', 'sqrt',
             'exp', 'tanh', 'cosh', 'cos', 'sin', 'RuntimeError', 'ValueError', 'AssertionError', 'NotImplementedError',
             'str', 'reversed', 'sorted', 'all', 'any', 'prod', 'pi', 'mod', 'fabs', 'log', 'dict', 'set'}
@@ -130,6 +130,24 @@ class Engine(Exec):
             cid = self.comm_consts(st, args[0])[0]
             PEER = V.uf('peer_send', INT, INT, z3.ArraySort(INT, REAL))
             return SpecArr(PEER(z3.IntVal(cid), ZI(args[1])), [None], REAL)
+        if name == 'array' and args and isinstance(args[0], list) and any(isinstance(x, V.StarredArr) for x in args[0]):
+            # np.array([x0, .., *a, .., y0]): concatenation of scalars and rank-1 arrays of symbolic length
+            items = args[0]
+            offs, total = [], 0
+            for x in items:
+                offs.append(total)
+                total = binop('Add', total, x.arr.shape[0] if isinstance(x, V.StarredArr) else 1)
+            fns = [self.elem_fn(st, x.arr) if isinstance(x, V.StarredArr) else None for x in items]
+
+            def elem(j, items=items, offs=offs, fns=fns):
+                k = j[0]
+                r = None
+                for n in range(len(items) - 1, -1, -1):
+                    x = items[n]
+                    val = fns[n]((binop('Sub', k, offs[n]),)) if isinstance(x, V.StarredArr) else x
+                    r = val if r is None else V.ite(compare('Lt', k, offs[n + 1]), val, r)
+                return r
+            return ExprArr([total], elem, REAL)
         if name == 'array' and args and isinstance(args[0], (list, tuple)) and all(isinstance(x, Obj) or x is None for x in args[0]):
             return V.ObjArray(args[0])
         if name == 'nonzero' and args and isinstance(args[0], V.ObjArray) and all(isinstance(x, bool) for x in args[0]):
@@ -189,6 +207,18 @@ class Engine(Exec):
             return V.py_abs(args[0])
         if name in ('int', 'trunc'):
             return V.py_int(args[0])
+        if name == 'round' and len(args) == 1:
+            # Python round(x): the nearest integer, ties to even
+            a = args[0]
+            if not is_sym(a):
+                return round(a)
+            if is_intlike(a):
+                return a
+            x = ZR(a)
+            fl = z3.ToInt(x)
+            frac = x - z3.ToReal(fl)
+            half = z3.RealVal('1/2')
+            return simp(z3.If(frac < half, fl, z3.If(frac > half, fl + 1, z3.If(fl % 2 == 0, fl, fl + 1))))
         if name == 'floor':
             r = V.py_floor(args[0])
             return binop('Mult', r, Fraction(1)) if name == 'floor' and not fr.spec_only else r
@@ -963,6 +993,32 @@ class Engine(Exec):
             base = self.ev(t.value, st, fr)
             idx = self.ev(t.slice, st, fr)
             self.store(st, fr, base, idx, v, t)
+        elif isinstance(t, ast.Attribute) and t.attr == 'flat':
+            # a.flat = b.flat: copy in C order.  Extents of 1 do not change the C order, so with them removed the two
+            # shapes must agree (obligation) and the copy is element by element
+            base = self.ev(t.value, st, fr)
+            if isinstance(v, V.FlatOf):
+                src = v.arr
+            elif self.is_arr(v):
+                src = v          # a.flat = b: the values of b in C order
+            else:
+                raise OutOfReach('.flat assignment of this form')
+            if not isinstance(base, Arr):
+                raise OutOfReach('.flat assignment of this form')
+            keep_t = [k for k, s_ in enumerate(base.shape) if not (is_cint(s_) and s_ == 1)]
+            keep_s = [k for k, s_ in enumerate(src.shape) if not (is_cint(s_) and s_ == 1)]
+            if len(keep_t) != len(keep_s):
+                raise OutOfReach('.flat assignment between arrays of different squeezed rank')
+            for kt, ks in zip(keep_t, keep_s):
+                self.safety(st, fr, 'shape_agreement', compare('Eq', base.shape[kt], src.shape[ks]), t)
+            sf = self.elem_fn(st, src)
+
+            def fn(j, sf=sf, keep_t=keep_t, keep_s=keep_s, rank_s=src.rank):
+                full = [0] * rank_s
+                for kt, ks in zip(keep_t, keep_s):
+                    full[ks] = j[kt]
+                return sf(tuple(full))
+            self.store(st, fr, base, slice(None), ExprArr(list(base.shape), fn, src.elem), t)
         elif isinstance(t, ast.Attribute):
             base = self.ev(t.value, st, fr)
             if isinstance(base, Obj):
